@@ -1,7 +1,7 @@
 ---------------------------- MODULE MC_Fallback ----------------------------
 EXTENDS Fallback, Json, TLC
-Emit == done => PrintT(<<"REPLAY", ToJson([policy |-> policy, copy |-> copy, result |-> result,
-                                           outcome |-> OutcomeOf(copy, result), rrdp |-> rrdpOn, rsync |-> rsyncOn,
-                                           notify |-> notify,
-                                           decision |-> Documented(policy, OutcomeOf(copy, result), rrdpOn, rsyncOn, notify)])>>)
+(* one line per complete history of MaxRuns runs *)
+Emit == (phase = "idle" /\ n = MaxRuns) =>
+          PrintT(<<"REPLAY", ToJson([policy |-> policy, copy |-> hist[1].before, rrdp |-> rrdpOn, rsync |-> rsyncOn,
+                                     notify |-> notify, runs |-> hist])>>)
 =============================================================================
